@@ -84,8 +84,7 @@ def r2(cx, rec):
     for bi, si, e in mirq.agg_sites(P, r'^metainfo::Metainfo$'):
         src = dict(e[4]).get(V.meta_piece_length(F))
         x = src
-        while x[0] in ('try', 'cast'):
-            x = x[1]
+        x = mirq.peel_ok(x)
         rec.site(P, bi, 'piece_length <- %s' % show(src)[:80])
         if not (x[0] == 'call' and x[1] in F.fns):
             rec.violation('piece-length-source', P, bi, 'piece_length is initialised from %s' % show(src)[:80])
@@ -171,8 +170,7 @@ def r3(cx, rec):
         for fld, (key, parent) in key_table(F).items():
             src = fields.get(fld)
             x = mirq.init_of(src) if src else ('other', '')
-            while x[0] in ('try', 'cast'):
-                x = x[1]
+            x = mirq.peel_ok(x)
             if not (x[0] == 'call' and x[1] in F.fns):
                 rec.violation('field-source/' + fld, P, bi, 'Metainfo.%s is initialised from %s' % (fld, show(src)[:80] if src else None))
                 continue
